@@ -26,3 +26,23 @@ package loader
 //@   loop 0: assert prev(len(tab)) <= len(tab) && (forall j int :: (0 <= j && j < prev(len(tab))) ==> tab[j] == prev(tab[j]))
 //@   loop 0: assert forall k int :: (0 <= k && k < rangeindex) ==> offs[k] == prev(offs[k])
 //@   loop 0: assert len(tab) < 2147483648 ==> int(offs[rangeindex]) == prev(len(tab))
+
+// ---- Load (C09: the function returned for input i is the code of input i, whatever the
+// names are; C10).  makeModuledata builds the runtime tables and may reorder *funcsp;
+// verification and registration with the runtime are outside the model.
+//@ func makeModuledata assumed "builds the runtime moduledata (pclntab, ftab, findfunctab, funcdata) and copies the text into executable memory; sorts *funcsp by entry offset"
+//@   requires funcsp != nil
+//@   modifies *funcsp, (*funcsp)[_]
+//@   ensures mod != nil && fresh(mod) && mod.text <= 140737488355328
+//@ func moduledataverify1 assumed "runtime.moduledataverify1 (linkname): reads the tables"
+//@ func registerModule assumed "links the module into the runtime's module list (runtime state is outside the model)"
+//@ func Load props C09,C10
+//@   modifies funcs[_]
+//@   witness mt uintptr = mod.text
+//@   ensures len(out) == len(funcs)
+//@   ensures forall i int :: (0 <= i && i < len(funcs)) ==> (out[i] != nil && *cast(*uintptr, out[i]) == mt + uintptr(old(funcs[i].EntryOff)))
+//@   loop 0: invariant -1 <= rangeindex && rangeindex < len(funcs0) && same(funcs, funcs0) && len(entries) == len(funcs0) && fresh(entries)
+//@   loop 0: invariant forall k int :: (0 <= k && k <= rangeindex) ==> entries[k] == old(funcs0[k].EntryOff)
+//@   loop 1: invariant -1 <= rangeindex && rangeindex < len(entries) && len(out) == len(entries) && len(entries) == len(funcs0) && fresh(out) && fresh(entries) && base(out) != base(entries) && mod != nil && mod.text <= 140737488355328 && same(mod.text, pre(mod.text))
+//@   loop 1: invariant forall k int :: (0 <= k && k < len(entries)) ==> entries[k] == old(funcs0[k].EntryOff)
+//@   loop 1: invariant forall k int :: (0 <= k && k <= rangeindex) ==> (out[k] != nil && allocated(cast(*uintptr, out[k])) && *cast(*uintptr, out[k]) == mod.text + uintptr(entries[k]))
